@@ -159,7 +159,7 @@ theorem readFrom_enc (rsOn : Bool) (fmt : Nat) (tf : TimeFormat) (ts : List CTra
   have e2 : ts.length / 256 % 256 * 256 + ts.length % 256 = ts.length := be16_dec _ hn
   have e3 : ¬ (2 < fmt) := by omega
   simp only [readFrom, encHeader, encChunk, MThd, be32, be16, hab, List.cons_append, List.nil_append,
-    List.append_assoc, readN4, readN2, e1, e2, hp, ne_eq, not_true_eq_false, if_false, gt_iff_lt, e3, hl]
+    List.append_assoc, readN4, readN2, val16, tfOf2, e1, e2, hp, ne_eq, not_true_eq_false, if_false, gt_iff_lt, e3, hl]
   simp [RState.missing]
 
 end Midi.Smf
